@@ -317,6 +317,9 @@ def check_c06(out, tier):
         judge_nt(out, random_nt_statements(rnd, 20000), "random L<=12")
     judge_nt_docs(out, rnd, 240 if tier == "quick" else 3000)
     judge_line_readers(out, tier)
+    # literal typing: every (lexical class, declared kind) as a quoted N-Triples / TSV literal through the whole pipeline
+    from harness import typing_leg
+    typing_leg.leg(out, "C06", ["nt", "tsv_spo"])
     return ("single-line N-Triples statements: subject in {2 IRIs with '#','@','_',':' ; blank node} x object in {IRI, blank "
             "node, literal whose content is a word over the 16-symbol adversarial alphabet (escaped quote, escaped backslash, "
             "'@', '^^', '#', ' .', '<', '>', 'xsd:', 'geo:', digit, '_', non-ASCII, \\uXXXX, '%', 'a')} x suffix {none, @en, "
@@ -508,6 +511,9 @@ def check_c07(out, tier):
         docs.append({"id": "ttl%d" % i, "toks": toks, "gaps": g})
         i += 1
     judge_ttl(out, docs, "layouts")
+    # literal typing: quoted literals of every (lexical class, declared kind) and the integer shorthand through the whole pipeline
+    from harness import typing_leg
+    typing_leg.leg(out, "C07", ["turtle_iter"])
     return ("Turtle documents of the reader's dialect: token sequences S P O (, O)* (; P O ...)* . over a vocabulary covering "
             "prefixed / absolute / relative-to-@base IRIs, blank nodes, 'a' and rdf:type, plain / language-tagged / typed literals "
             "(datatype as <IRI>, xsd:-prefixed, custom-prefixed), literals containing '#', ';', ',', '.', escaped quotes and "
